@@ -223,8 +223,33 @@ ODD_DECO = {'urn-only': lambda c: 'urn:' + c, 'uuid-only': lambda c: 'uuid:' + c
             'URN': lambda c: 'URN:UUID:' + c, 'urn-sp': lambda c: 'urn: uuid:' + c, 'colon': lambda c: 'urn:uuid::' + c, 'sp-pad': lambda c: ' ' + c[1:-1] + ' ',
             'nbsp-pad': lambda c: '\xa0' + c[1:], 'x1c': lambda c: '\x1c' + c[1:]}
 
+def decorated(rng, core):
+    """core with the decorations in a random order / nesting / repetition that uuid.UUID's removal tolerates:
+    any mix of 'urn:', 'uuid:', braces and hyphens in front and behind, prefixes and hyphens also inside"""
+    def mix(tokens, lo, hi):
+        return ''.join(rng.choice(tokens) for _ in range(rng.randint(lo, hi)))
+    body = core
+    r = rng.random()
+    if r < 0.4: body = hyph(core) if len(core) >= 20 else core
+    elif r < 0.6:
+        for _ in range(rng.randint(1, 4)):
+            i = rng.randrange(len(body) + 1); body = body[:i] + rng.choice(['-', '-', 'urn:', 'uuid:', '--']) + body[i:]
+    front = mix(['urn:', 'uuid:', '{', '{', '}', '-', 'urn:uuid:', 'uurn:uid:', 'uuuid:rn:'], 0, 4)
+    back = mix(['}', '}', '{', '-', 'urn:', 'uuid:'], 0, 3)
+    return front + body + back
+
+FIXED_NESTINGS = ['{urn:uuid:%s}', '{uuid:%s}', '{urn:%s}', 'urn:urn:uuid:%s', 'uuid:urn:%s', 'uuid:uuid:%s', 'urn:uuid:{%s}', 'urn:{uuid:%s}',
+                  '{{urn:uuid:%s}}', 'uuid:urn:uuid:%s', '%surn:', '%suuid:', '%s}uuid:', '{urn:uuid:%s}urn:', '}urn:uuid:%s{', 'urn:uuid:-%s-']
+
 def uuid_cases(rng, tier):
     n = 40 if tier == 'quick' else 1500
+    for _ in range(n):
+        core = hexcore(rng, 32)
+        for f in FIXED_NESTINGS:
+            yield {'op': 'uuid', 'v': S(f % core)}
+            yield {'op': 'uuid', 'v': S(f % hyph(core))}
+    for _ in range(n * 15):
+        yield {'op': 'uuid', 'v': S(decorated(rng, hexcore(rng, rng.choice([31, 32, 32, 32, 32, 33]))))}
     for _ in range(n):
         for ln in (30, 31, 32, 32, 32, 33, 34):
             core = hexcore(rng, ln)
@@ -579,6 +604,10 @@ def _oracle(c, io):
             good = bool(HEX32.match(c['core']))
             if good and io != 'True': return 'is_uuid_like rejects the %s spelling %r of a UUID' % (c['deco'], v)
             if not good and io != 'False': return 'is_uuid_like accepts %r whose digits %r are not 32 hex digits' % (v, c['core'])
+        # accept direction: decoration removed exactly as uuid.UUID removes it ('urn:' / 'uuid:' anywhere, braces at both
+        # ends, hyphens anywhere) leaves 32 hex digits => a UUID in some order / nesting / repetition of the spellings
+        if HEX32.match(v.replace('urn:', '').replace('uuid:', '').strip('{}').replace('-', '')) and io != 'True':
+            return 'is_uuid_like rejects %r, which is 32 hex digits once the decoration is removed as uuid.UUID removes it' % (v,)
         if io == 'True' and not HEX32.match(deco_nf(v)):
             return 'is_uuid_like accepts %r; decoration removed it is %r, not 32 hex digits' % (v, deco_nf(v))
     elif op == 'gen':
